@@ -85,6 +85,9 @@ def cases(tier, seed):
     for pair in PAIRS:
         for axis in AXES:
             out.append({"kind": "copy", "pair": pair, "A_IJ0": "generic", "angle0": 0.3, "axis": axis, "seed": seed})
+    for form in ("0d", "1d"):
+        for axis in AXES:
+            out.append({"kind": "lattice", "N": 16, "pair": "O-RB", "A_IJ0": "generic", "angle0": 0.3, "axis": axis, "seed": seed, "alphabet": "all", "angle0_form": form})
     for axis in AXES:
         out.append({"kind": "rod_pair", "axis": axis, "angle0": 0.3, "seed": seed})
     for pair in ("Fm-RB", "RB-Fm"):
@@ -133,7 +136,10 @@ class Scen:
             self.rb2 = J.make_subsystem("RB", seed, 2, q0=np.array([0, 0, 0, 1.0, 0, 0, 0]))
         else:
             self.rb2 = J.make_subsystem("RB", seed, 2)
-        self.joint = J.make_joint("Revolute", self.axis, s1, self.rb2, r_OJ0=self.r_OJ0.copy(), A_IJ0=self.A_IJ0.copy(), angle0=self.angle0)
+        form = case.get("angle0_form", "float")
+        a0 = {"float": self.angle0, "0d": np.array(self.angle0), "1d": np.array([self.angle0])}[form]  # the offset may arrive as an array
+        self.angle0_given = a0
+        self.joint = J.make_joint("Revolute", self.axis, s1, self.rb2, r_OJ0=self.r_OJ0.copy(), A_IJ0=self.A_IJ0.copy(), angle0=a0)
         items = ([self.rb1] if self.rb1 is not None else []) + ([self.fr1] if self.W is not None else []) + [self.rb2, self.joint]
         self.system.add(*items)
         J.assemble(self.system)
@@ -179,7 +185,9 @@ class Scen:
         return q
 
     def ask(self, q):
-        return float(self.joint.l(self.t_cur if self.W is not None else self.system.t0, q[self.joint.qDOF]))
+        if not np.all(np.asarray(self.angle0_given) == self.angle0):
+            raise OffsetModified(f"{self.angle0_given!r} != {self.angle0!r}")
+        return float(np.ravel(self.joint.l(self.t_cur if self.W is not None else self.system.t0, q[self.joint.qDOF]))[0])
 
     def fields(self):
         return (getattr(self.joint, "previous_quadrant", "?"), getattr(self.joint, "n_full_rotations", "?"))
@@ -698,7 +706,19 @@ def check_tlc(case):
                                          "tlc_model_states_unreachable_for_impl": rep.get("model_states_unreachable_for_impl", 0)}}
 
 
+class OffsetModified(Exception):
+    """the object handed to Revolute(angle0=...) changed its value while the joint was used"""
+
+
 def check(case):
+    try:
+        return _check(case)
+    except OffsetModified as e:
+        return {"fails": [{"site": "the angle offset object handed to the joint is modified in place by the joint", "msg": str(e), "data": {}}],
+                "nontrivial": True, "evals": 1, "outcome": "offset_modified"}
+
+
+def _check(case):
     if case["kind"] == "copy":
         return check_copy(case)
     if case["kind"] == "rod_pair":
